@@ -404,6 +404,11 @@ func registerIntrinsics(m *Machine) {
 		return m.indexSub(c.StrBytes(a[0].(Str)), c.StrBytes(a[1].(Str)))
 	}
 	I["strings.Contains"] = func(m *Machine, fr *frame, a []Value, _ *ssa.CallCommon) Value {
+		if h := a[0].(Str); h.B != nil && len(h.B) > 64 {
+			// long symbolic haystack: the outcome is left unconstrained (both explored) instead of
+			// forking once per position; only diagnostics depend on it in the code under analysis
+			return c.Fresh("contains.long", SBool, 0)
+		}
 		r := m.indexSub(c.StrBytes(a[0].(Str)), c.StrBytes(a[1].(Str)))
 		return c.Cmp(OSLe, c.BV(0, 64), r.(*Term))
 	}
